@@ -90,6 +90,11 @@ EXPORT rsize_t _strnterminate_s_chk(char *dest, rsize_t dmax,
         }
         BND_CHK_PTR_BOUNDS(dest, dmax);
     } else {
+        if (unlikely(dmax > RSIZE_MAX_STR)) {
+            invoke_safe_str_constraint_handler(
+                "strnterminate_s: dmax exceeds max", (void *)dest, ESLEMAX);
+            return (0);
+        }
         if (unlikely(dmax > destbos)) {
             invoke_safe_str_constraint_handler(
                 "strnterminate_s: dmax exceeds dest", (void *)dest, EOVERFLOW);
